@@ -1,3 +1,4 @@
+\* negative control (defect 5, release build: count * N formed in the machine word wraps): expected to FAIL
 SPECIFICATION Spec
 INVARIANT Latched
 INVARIANT PrefixAlways
@@ -7,8 +8,8 @@ PROPERTY Termination
 CHECK_DEADLOCK FALSE
 CONSTANTS
   NS = {1, 2, 3}
-  MAXCOUNT = 3
+  MAXCOUNT = 7
   FAULTS = 1
   FASTALL = TRUE
-  CNTMOD = 0
+  CNTMOD = 8
   PANICS = FALSE
